@@ -1,119 +1,46 @@
-(* C01, "every request eventually gets an answer while the database keeps answering", in possibility form:
-   no reachable worker state is wedged -- when every request was accounted with a positive size.  With a size of
-   zero the statement fails (swapBuffers tests svc.size == 0, not len(svc.results) == 0). *)
+(* C01, "every request eventually gets an answer while the database keeps answering", in possibility form, for one
+   worker: no reachable state is wedged.  (Before the fix of swapBuffers -- which tested svc.size == 0 instead of
+   len(svc.results) == 0 -- this needed every request to be accounted with a positive size.) *)
 From Coq Require Import List NArith ZArith Bool Lia Arith.
 From Qryn Require Import model.Ingest proofs.IngestBase.
 Import ListNotations.
-
-(* accounted size and pending promises agree *)
-Definition pos_inv (s : svc) : Prop :=
-  (0 <= size s)%Z /\ (results s = [] -> size s = 0%Z) /\ (results s <> [] -> (0 < size s)%Z).
-
-Lemma pos_inv_step s a s' vs : pos_inv s -> pos_request a = true -> sstep s a = Some (s', vs) -> pos_inv s'.
-Proof.
-  intros (P0 & P1 & P2) Hp Hs. destruct a as [p r sz| |ok| | |ok| |]; cbn in Hs.
-  - cbn in Hp. apply Z.ltb_lt in Hp. destruct (running s); cbn in Hs.
-    + destruct (eff (kd s) r) as [r'|]; [|discriminate].
-      destruct (Nat.eqb _ 0); inversion Hs; subst; cbn; [repeat split; auto|].
-      unfold pos_inv; cbn. repeat split; try lia. intros X. destruct (results s); discriminate.
-    + inversion Hs; subst. repeat split; auto.
-  - inversion Hs; subst. repeat split; auto.
-  - destruct (_ && _); inversion Hs; subst. repeat split; auto.
-  - destruct (_ && _); [|discriminate]. destruct (Z.eqb (size s) 0); inversion Hs; subst; unfold pos_inv; cbn.
-    + repeat split; auto.
-    + repeat split; try lia. intros X; contradiction.
-  - destruct (inflight s) as [po|]; [|discriminate]. destruct (p_sent po); inversion Hs; subst. repeat split; auto.
-  - destruct (inflight s) as [po|]; [|discriminate]. destruct (negb (p_sent po)); inversion Hs; subst. repeat split; auto.
-  - destruct (is_none (inflight s)); inversion Hs; subst. repeat split; auto.
-  - inversion Hs; subst. repeat split; auto.
-Qed.
-
-Lemma pos_inv_run tr : forall s s' vs, pos_inv s -> forallb pos_request tr = true -> srun s tr = Some (s', vs) -> pos_inv s'.
-Proof.
-  induction tr as [|a tr IH]; intros s s' vs P Hp Hr; cbn in Hr.
-  - inversion Hr; subst; assumption.
-  - cbn in Hp. apply andb_true_iff in Hp as [Ha Ht].
-    destruct (sstep s a) as [[s1 e1]|] eqn:E; [|discriminate].
-    destruct (srun s1 tr) as [[s2 e2]|] eqn:E2; [|discriminate]. inversion Hr; subst.
-    exact (IH _ _ _ (pos_inv_step _ _ _ _ P Ha E) Ht E2).
-Qed.
-
-Lemma pos_inv_init k g mq : pos_inv (svc_init k g mq).
-Proof. unfold pos_inv; cbn. repeat split; auto; try lia. intros X; contradiction. Qed.
 
 Lemma dones_app a b : dones (a ++ b) = dones a ++ dones b.
 Proof. induction a as [|v a IH]; cbn; [reflexivity|]. destruct v; cbn; rewrite ?IH; reflexivity. Qed.
 Lemma dones_map l ok : dones (map (fun pr : pid * req => VDone (fst pr) (snd pr) ok) l) = map (fun pr => (fst pr, ok)) l.
 Proof. induction l as [|x l IH]; cbn; [reflexivity|]. now rewrite IH. Qed.
 
-(* from every state of a running worker whose accounting is sound, the drain continuation runs, completes every
-   pending promise (those of the portion that was out and those of the open batch, all with success) and leaves
-   the worker empty *)
+Lemma srun_app s tr1 : forall s1 v1 tr2, srun s tr1 = Some (s1, v1) ->
+  srun s (tr1 ++ tr2) = match srun s1 tr2 with Some (s2, v2) => Some (s2, v1 ++ v2) | None => None end.
+Proof.
+  revert s. induction tr1 as [|a tr1 IH]; intros s s1 v1 tr2 H; cbn in H |- *.
+  - inversion H; subst. destruct (srun s1 tr2) as [[? ?]|]; reflexivity.
+  - destruct (sstep s a) as [[s' e1]|]; [|discriminate]. destruct (srun s' tr1) as [[s'' e2]|] eqn:E; [|discriminate].
+    inversion H; subst. rewrite (IH _ _ _ tr2 E). destruct (srun s1 tr2) as [[? ?]|]; [now rewrite app_assoc|reflexivity].
+Qed.
+
+(* from every state of a running worker the drain continuation runs, completes every pending promise (those of the
+   portion that is out and those of the open batch, all with success) and leaves the worker empty *)
 Theorem svc_can_always_drain s :
-  pos_inv s -> running s = true ->
+  running s = true ->
   exists s' vs, srun s (drain s) = Some (s', vs) /\
     results s' = [] /\ inflight s' = None /\
     dones vs = map (fun pr => (fst pr, true)) (match inflight s with Some po => p_res po | None => [] end ++ results s).
 Proof.
-  intros (P0 & P1 & P2) Hrun. destruct s as [k g mq c sz res inf cl pl rn]. cbn in P0, P1, P2, Hrun. subst rn.
-  assert (Hsz : res = [] -> Z.eqb sz 0 = true) by (intros X; rewrite (P1 X); reflexivity).
-  assert (Hnz : res <> [] -> Z.eqb sz 0 = false) by (intros X; apply Z.eqb_neq; specialize (P2 X); lia).
+  intros Hrun. destruct s as [k g mq c sz res inf cl pl rn]. cbn in Hrun. subst rn.
   unfold drain; cbn [inflight results client is_none].
-  destruct res as [|x xs].
-  - pose proof (Hsz eq_refl) as E. clear Hsz Hnz.
-    destruct inf as [[pc pr [|]]|]; [| |destruct cl]; cbn; rewrite ?E; cbn;
-      (eexists; eexists; split; [reflexivity|]); cbn;
-      rewrite ?app_nil_r, ?dones_app, ?dones_map; cbn; rewrite ?app_nil_r; auto.
-  - assert (E : Z.eqb sz 0 = false) by (apply Hnz; discriminate). clear Hsz Hnz.
-    destruct inf as [[pc pr [|]]|]; [| |destruct cl]; cbn; rewrite ?E; cbn;
+  destruct res as [|x xs];
+    (destruct inf as [[pc pr [|]]|]; [| |destruct cl]); cbn;
       (eexists; eexists; split; [reflexivity|]); cbn;
       rewrite ?app_nil_r, ?dones_app, ?dones_map; cbn; rewrite ?app_nil_r, ?dones_app, ?dones_map, ?map_app; cbn; auto.
 Qed.
 
-(* ... and the statement without the size hypothesis is false: a request with rows but accounted size 0 is
-   accepted, and no sequence of flushes, dials, swaps ever sends or completes it *)
-Definition zero_req : req := table_of 5 [1%N].
-Definition zero_state : svc :=
-  match sstep (svc_init KSamples 0 0) (SRequest (PEnv 1) zero_req 0) with Some (s, _) => s | None => svc_init KSamples 0 0 end.
-
-Lemma zero_stuck_step s a s' vs :
-  size s = 0%Z -> inflight s = None -> is_srequest a = false -> sstep s a = Some (s', vs) ->
-  size s' = 0%Z /\ inflight s' = None /\ results s' = results s /\ vs = [].
-Proof.
-  intros Hz Hi Hr Hs. destruct a as [p r sz| |ok| | |ok| |]; cbn in Hr, Hs; try discriminate.
-  - inversion Hs; subst. auto.
-  - destruct (_ && _); inversion Hs; subst. auto.
-  - destruct (_ && _); [|discriminate]. rewrite Hz in Hs. cbn in Hs. inversion Hs; subst. auto.
-  - rewrite Hi in Hs. discriminate.
-  - rewrite Hi in Hs. discriminate.
-  - destruct (is_none (inflight s)); inversion Hs; subst. auto.
-  - inversion Hs; subst. auto.
-Qed.
-
-Theorem zero_size_request_is_never_answered : forall tr s' vs,
-  forallb (fun a => negb (is_srequest a)) tr = true ->
-  srun zero_state tr = Some (s', vs) ->
-  vs = [] /\ results s' = [(PEnv 1, zero_req)].
-Proof.
-  assert (G : forall tr s s' vs, size s = 0%Z -> inflight s = None ->
-            forallb (fun a => negb (is_srequest a)) tr = true -> srun s tr = Some (s', vs) -> vs = [] /\ results s' = results s).
-  { induction tr as [|a tr IH]; intros s s' vs Hz Hi Hp Hr; cbn in Hr.
-    - inversion Hr; subst. auto.
-    - cbn in Hp. apply andb_true_iff in Hp as [Ha Ht]. apply negb_true_iff in Ha.
-      destruct (sstep s a) as [[s1 e1]|] eqn:E; [|discriminate].
-      destruct (srun s1 tr) as [[s2 e2]|] eqn:E2; [|discriminate]. inversion Hr; subst.
-      destruct (zero_stuck_step _ _ _ _ Hz Hi Ha E) as (Z1 & I1 & R1 & V1).
-      destruct (IH _ _ _ Z1 I1 Ht E2) as [V2 R2]. subst. split; [reflexivity|congruence]. }
-  intros tr s' vs Hp Hr. destruct (G tr zero_state s' vs eq_refl eq_refl Hp Hr) as [V R]. split; [assumption|]. rewrite R. reflexivity.
-Qed.
-
-(* the guard of svc_can_always_drain is met by every run from the initial state whose requests have a positive size *)
+(* the hypothesis is met in non-trivial states: a portion out and requests in the open batch, one of them accounted
+   with size 0 *)
 Example drain_guard_reachable :
-  let tr := [SRequest (PEnv 1) (table_of 5 [1%N; 2%N]) 30; SPlan; SDial true; SSwap; SRequest (PEnv 2) (table_of 5 [3%N]) 12] in
-  forallb pos_request tr = true /\
-  exists s vs, srun (svc_init KSamples 0 0) tr = Some (s, vs) /\ pos_inv s /\ running s = true /\ results s <> [] /\ inflight s <> None.
+  let tr := [SRequest (PEnv 1) (table_of 5 [1%N; 2%N]) 30; SPlan; SDial true; SSwap; SRequest (PEnv 2) (table_of 5 [3%N]) 0] in
+  exists s vs, srun (svc_init KSamples 0 0) tr = Some (s, vs) /\ running s = true /\ results s <> [] /\ inflight s <> None /\ size s = 0%Z.
 Proof.
-  cbv zeta. split; [reflexivity|]. eexists. eexists. split; [vm_compute; reflexivity|].
-  split; [|split; [reflexivity|split; discriminate]].
-  unfold pos_inv; cbn. repeat split; try lia; try discriminate.
+  cbv zeta. eexists. eexists. split; [vm_compute; reflexivity|].
+  split; [reflexivity|]. split; [discriminate|]. split; [discriminate|reflexivity].
 Qed.
